@@ -342,6 +342,40 @@ PUBLISHERS = REPLACERS | {"shutil.move", "shutil.copy", "shutil.copy2", "shutil.
                           "os.symlink"}
 
 
+def rule_keep(ctx):
+    """(seed C15_9) 'Entries stored before the crash remain readable': the writer never deletes an entry path.
+    Publishing by unlink-then-link (or remove-then-rename) opens a window in which a kill leaves neither the
+    old nor the new record."""
+    r = RuleResult("C15-KEEP", "the writer never removes a published entry", 1)
+    n_fun = 0
+    for f in _with_helpers(ctx, _scope(ctx)):
+        has_write = any(_is_write_open(n) for n in walk_local(f.node) if isinstance(n, ast.Call))
+        if not has_write:
+            continue
+        n_fun += 1
+        key = ctx.key(f, "C15-KEEP")
+        bad = None
+        for n in walk_local(f.node):
+            if not isinstance(n, ast.Call):
+                continue
+            d = dotted(n.func)
+            tgt = None
+            if d in ("os.unlink", "os.remove") and n.args:
+                tgt = n.args[0]
+            elif isinstance(n.func, ast.Attribute) and n.func.attr in ("unlink",) and not n.args and d not in ("os.unlink",):
+                tgt = n.func.value
+            if tgt is not None and _classify_path(ctx, f, tgt)[0] == "final":
+                bad = n
+        if bad is not None:
+            r.violation(key, C.loc(f, bad), f"`{C.unparse(bad, 50)}` deletes the entry before its replacement is published: a "
+                        f"writer killed in between leaves the contraction without any record although one was stored "
+                        f"before (a later cache-only run raises KeyError)")
+        else:
+            r.ok(key, f.loc, "no entry path is deleted by the writer")
+    C.require(n_fun >= 1, "no writing function found for C15-KEEP")
+    return r
+
+
 def rule_promote(ctx):
     """A file may be moved onto a name of the cache only by the function execution that
     wrote and closed it: anything else (a 'recovery' of temporaries found on disk, a
@@ -426,6 +460,30 @@ def rule_reader(ctx):
             r.ok(key, C.loc(g, n), why)
         else:
             r.violation(key, C.loc(g, n), why)
+    # (c) (seed C15_10) presence is decided by the entry itself: what a dead writer leaves behind (its
+    # temporary sibling) must not make an entry count as present — `hash_query` then reports "not missing",
+    # nobody searches, and the lookup fails for that contraction forever
+    for mname in ("__contains__",):
+        cm = dd.methods.get(mname)
+        C.require(cm is not None, f"DiskDict.{mname} not found")
+        key = ctx.key(cm, "C15-READER", "presence")
+        listing = [n for n in walk_local(cm.node) if isinstance(n, ast.Call) and (
+            (isinstance(n.func, ast.Attribute) and n.func.attr in ("glob", "rglob", "iterdir"))
+            or dotted(n.func) in ("os.listdir", "os.scandir", "glob.glob", "glob.iglob", "os.walk"))]
+        exists = [n for n in walk_local(cm.node) if isinstance(n, ast.Call) and (
+            (isinstance(n.func, ast.Attribute) and n.func.attr in ("exists", "is_file"))
+            or dotted(n.func) in ("os.path.exists", "os.path.isfile"))]
+        sibl = [n for n in exists if _classify_path(ctx, cm, n.func.value if isinstance(n.func, ast.Attribute)
+                                                   and n.func.attr in ("exists", "is_file") else (n.args[0] if n.args else None))[0] == "temp"]
+        if listing or sibl:
+            bad = (listing or sibl)[0]
+            r.violation(key, C.loc(cm, bad), f"`{C.unparse(bad, 60)}`: an entry counts as present because of files other than "
+                        f"the entry itself; the temporary a writer leaves when it dies before publishing then marks the "
+                        f"contraction as cached for every later run although no record can be read")
+        elif exists:
+            r.ok(key, C.loc(cm, exists[0]), "present iff in the memory layer or the entry file exists")
+        else:
+            raise AnalysisError("DiskDict.__contains__: presence test not recognised")
     return r
 
 
@@ -518,4 +576,4 @@ def rule_dirs(ctx):
     return r
 
 
-RULES = [rule_atomic, rule_promote, rule_reader, rule_dirs]
+RULES = [rule_atomic, rule_keep, rule_promote, rule_reader, rule_dirs]
